@@ -25,6 +25,10 @@ REPLAYS = os.path.join(ROOT, "work", "replays")
 GOENV = dict(os.environ, GOFLAGS="-mod=mod", GOPROXY="off", GOSUMDB="off", GOTOOLCHAIN="local",
              CGO_ENABLED=os.environ.get("CGO_ENABLED", "0"))
 
+# properties whose operations do not involve the hash function: a sample of every run is also
+# evaluated inside Coq (tools/coqeval.py)
+COQEVAL_PROPS = {"C03", "C10", "C15", "C16", "C18", "C19"}
+
 FORBIDDEN = re.compile(r"\b(Admitted|admit|Axiom|Axioms|Parameter|Parameters|Conjecture|Conjectures|"
                        r"Admit Obligations)\b|Unset\s+Guard|bypass_check|-type-in-type|"
                        r"Unset\s+Universe\s+Checking|Unset\s+Positivity")
@@ -264,6 +268,17 @@ def main():
             else:
                 raise Fail("harness failed (exit %d):\n%s" % (rc, hout[-4000:]))
         run_driver(pid)
+        xc = None
+        if not alt and pid in COQEVAL_PROPS:
+            # cross-check of extraction + OCaml glue: a sample of the cases evaluated inside Coq
+            n = "2000" if tier == "thorough" else "200"
+            rc2, xout = sh(["python3", os.path.join(ROOT, "tools", "coqeval.py"), pid, "--n", n, "--seed", str(seed)],
+                           cwd=ROOT, timeout=3000)
+            m = re.search(r"COQEVAL \S+ cases=(\d+) mismatches=(\d+)", xout)
+            xc = dict(cases=int(m.group(1)), mismatches=int(m.group(2))) if m else dict(error=xout[-800:])
+            if rc2 != 0:
+                violations.append(("glue", "cases evaluated inside Coq (vm_compute) disagree with the extracted OCaml driver: " + xout[-600:],
+                                   dict(kind="extraction-cross-check", log=xout[-3000:])))
         obs, order = read_stream(os.path.join(WORK, pid + ".obs"))
         mod, _ = read_stream(os.path.join(WORK, pid + ".model"))
         ins, _ = read_stream(os.path.join(WORK, pid + ".in"))
@@ -311,6 +326,8 @@ def main():
         coqc_seconds=round(pr["secs"], 2),
     ))
     cov["checked_tree"] = repo_fingerprint(pid)
+    if xc is not None:
+        cov["coq_cross_check"] = dict(xc, what="sample of this run's cases evaluated inside Coq by vm_compute (coq/Eval.v) and compared with the extracted OCaml driver's answers")
     if chk is not None:
         cov["coqchk"] = dict(ok=chk["ok"], seconds=chk["secs"], axioms=chk["axioms"] or ["<none>"])
     nviol = 0
